@@ -174,9 +174,10 @@ class QueryHandler:
             next_token = self._get_next_token()
             if next_token and next_token.kind == Token.Wildcard:
                 expr = ExpressionWildcardNew(next_token)
-            elif next_token:
+            elif next_token and next_token.kind == Token.Tag:
                 expr = Expression(next_token)
             else:
-                expr = None
+                # A closing bracket, ':' or an operator where a term is expected, e.g. the queries ')' or 'a && ]'
+                raise ValueError(f"Parse error: unexpected '{next_token}' in search string")
 
         return expr
